@@ -330,9 +330,11 @@ const sentinelHeight = -1 // a header the wrappers swallow: reaching it means th
 type svcWorld struct {
 	bus      *types.EventBus
 	is       *txindex.IndexerService
-	rejected int64 // block-index failures seen by the wrapper
+	rejected sync.Map // height -> true: the block index refused the block
+	delays   sync.Map // height -> ms the (wrapped) block indexer takes for that block
 	sentinel int32
 	drained  chan struct{}
+	pubq     chan func() // one publisher, like the consensus state: blocks are published in order
 	stalled  bool
 }
 
@@ -351,9 +353,12 @@ func (b blockWrap) Index(bh types.EventDataNewBlockHeader) error {
 		b.s.drained <- struct{}{}
 		return nil
 	}
+	if d, ok := b.s.delays.Load(bh.Header.Height); ok { // a slow disk: events of later blocks pile up meanwhile
+		time.Sleep(time.Duration(d.(int)) * time.Millisecond)
+	}
 	err := b.inner.Index(bh)
 	if err != nil {
-		atomic.AddInt64(&b.s.rejected, 1)
+		b.s.rejected.Store(bh.Header.Height, true)
 	}
 	return err
 }
@@ -383,7 +388,7 @@ func (w *world) service() *svcWorld {
 		if w.bi == nil {
 			w.bi = blockidx.New(dbm.NewMemDB())
 		}
-		s := &svcWorld{drained: make(chan struct{}, 1)}
+		s := &svcWorld{drained: make(chan struct{}, 1), pubq: make(chan func(), 64)}
 		s.bus = types.NewEventBus()
 		if err := s.bus.Start(); err != nil {
 			panic(err)
@@ -393,34 +398,47 @@ func (w *world) service() *svcWorld {
 		if err := s.is.Start(); err != nil {
 			panic(err)
 		}
+		go func() {
+			for f := range s.pubq {
+				f()
+			}
+		}()
 		w.svc = s
 	}
 	return w.svc
 }
 
 // commitBlock publishes what the consensus state publishes for a committed block (header, then the
-// txs in order) and waits until the service has finished with it.
-func (s *svcWorld) commitBlock(h int64, begin, end []abci.Event, items []txItem) string {
+// txs in order). With wait it returns when the service has finished with everything published so
+// far; without, the block is only queued (the next waiting commit drains it too).
+func (s *svcWorld) commitBlock(h int64, begin, end []abci.Event, items []txItem, wait bool, slowMs int) string {
 	if s.stalled {
 		return "svc-stalled"
 	}
-	before := atomic.LoadInt64(&s.rejected)
-	go func() {
+	if slowMs > 0 {
+		s.delays.Store(h, slowMs)
+	}
+	s.pubq <- func() {
 		_ = s.bus.PublishEventNewBlockHeader(types.EventDataNewBlockHeader{Header: types.Header{Height: h}, NumTxs: int64(len(items)),
 			ResultBeginBlock: abci.ResponseBeginBlock{Events: begin}, ResultEndBlock: abci.ResponseEndBlock{Events: end}})
 		for i, it := range items {
 			_ = s.bus.PublishEventTx(types.EventDataTx{TxResult: abci.TxResult{Height: h, Index: uint32(i), Tx: it.Tx,
 				Result: abci.ResponseDeliverTx{Events: it.Events}}})
 		}
+	}
+	if !wait {
+		return "queued"
+	}
+	s.pubq <- func() {
 		_ = s.bus.PublishEventNewBlockHeader(types.EventDataNewBlockHeader{Header: types.Header{Height: sentinelHeight}})
-	}()
+	}
 	select {
 	case <-s.drained:
-	case <-time.After(20 * time.Second):
+	case <-time.After(8 * time.Second):
 		s.stalled = true
 		return "svc-stalled"
 	}
-	if atomic.LoadInt64(&s.rejected) != before {
+	if _, rej := s.rejected.Load(h); rej {
 		return "ok block-rejected"
 	}
 	return "ok"
@@ -447,6 +465,7 @@ func (w *world) barrier() {
 
 func (w *world) close() {
 	if w.svc != nil && !w.svc.stalled {
+		close(w.svc.pubq)
 		_ = w.svc.is.Stop()
 		_ = w.svc.bus.Stop()
 	}
@@ -669,7 +688,8 @@ func execCase(c core.Case) []string {
 			}())
 		case "svcblock":
 			h, _ := strconv.ParseInt(m["height"], 10, 64)
-			out = append(out, w.service().commitBlock(h, decTxEvents(m["begin"]), decTxEvents(m["end"]), decTxs(m["txs"])))
+			slow, _ := strconv.Atoi(m["slow"])
+			out = append(out, w.service().commitBlock(h, decTxEvents(m["begin"]), decTxEvents(m["end"]), decTxs(m["txs"]), m["wait"] != "0", slow))
 		case "bindex":
 			if w.bi == nil {
 				w.bi = blockidx.New(dbm.NewMemDB())
